@@ -23,6 +23,10 @@ FRAGMENTS = [
     '@param x: the x', '@type x: C{int}', '@return: something', '@rtype: L{int}', '@raise ValueError: bad', '@ivar v: v doc', '@unknown: field',
     '@param: no arg', '@type', '@see: L{other}', '@note: n', '@since: 1', '@param x: a\n    continued\n  badly',
     'Title\n=====', 'Sub\n---', 'Title\n==', '- item\n- item2', '1. one\n2. two', '  - nested\n     - deeper\n - dedent', '1. one\n3. three',
+    # headings that repeat (section ids have to be made unique), a field tag followed by many words and no colon
+    'Example\n=======\n\ntext\n\nExample\n=======\n\nmore\n\nExample\n=======\n\nend\n\nExample\n=======\n\nlast',
+    'Head\n====\n\nSub\n---\n\na\n\nSub\n---\n\nb\n\nSub\n---\n\nc',
+    '@note ' + 'word ' * 40 + 'and no colon', '@param name ' + 'lorem ipsum ' * 25, 'Text.\n\n@return ' + 'x ' * 60,
     # a tokenizer warning first, a fatal error later (the order of the collected errors must not matter)
     'Frob A.\n\n@note that this is slow B\n\n    This paragraph is indented too much C.', 'Frob A.\n\nUsage\n======\n\nCall it B.\n\n    Indented too much C.',
     'Frob A.\n\n@note that this is slow B\n\nClosing brace without opening C} here.', '@note that this is slow\n\nText L{unclosed',
@@ -68,6 +72,9 @@ def _source(doc, fmt_line):
             'mvar = 1', lit,
             'class Base:', '    def inh(self):', '        ' + lit,
             'class Derived(Base):', '    def inh(self):', '        pass',
+            # a deprecated function: the generated notice (its replacement text has markup problems of its own) is parsed as well
+            'from twisted.python.deprecate import deprecated', 'from incremental import Version',
+            '@deprecated(Version("m", 1, 2, 0), "``connect()`` or *dial()")', 'def dep(a):', '    # (comment lines: the docstring', '    #  starts well below', '    #  the decorator', '    #  and the def line)', '    ' + lit,
             # the same text attached after the fact (X.__doc__ = ...) to a class and a property that were documented differently before
             'class Late:', '    ' + repr('Initial text.\n\n@ivar early: an attribute documented by the first docstring\n'),
             '    @property', '    def lp(self):', '        ' + repr('Initial property text.'),
@@ -166,7 +173,8 @@ def _build(doc, case):
     if 'module_docformat' in case:
         line = f'__docformat__ = {case["module_docformat"]!r}'
     src = _source(doc, line)
-    return fixtures.build_system([('m', src, False)], options={'docformat': case['docformat'], 'processtypes': case['processtypes']})
+    # (not quiet: the messages printed while the system is built are part of what the caller captures)
+    return fixtures.build_system([('m', src, False)], options={'docformat': case['docformat'], 'processtypes': case['processtypes']}, quiet=False)
 
 
 _BASELINE = {}
@@ -178,11 +186,12 @@ def _plain(s):
 
 def _check(case):
     import contextlib, io
-    with contextlib.redirect_stdout(io.StringIO()), contextlib.redirect_stderr(io.StringIO()):
-        return _check1(case)
+    buf = io.StringIO()
+    with contextlib.redirect_stdout(buf), contextlib.redirect_stderr(io.StringIO()):
+        return _check1(case, buf)
 
 
-def _check1(case):
+def _check1(case, log=None):
     import inspect
     from pydoctor.epydoc.markup.plaintext import ParsedPlaintextDocstring
     doc = case['doc']
@@ -265,6 +274,7 @@ def _check1(case):
     # a fatal epytext markup error (ParseError.is_fatal, collected by the epytext parser itself in the error list it is handed)
     # must end in the plain-text fallback - asked of the parser directly, independently of how parse() ends
     fatal_epytext = False
+    fatal_descrs = []
     if effective == 'epytext' and cleaned:
         from pydoctor.epydoc.markup import epytext as _ep
         errs_ = []
@@ -273,6 +283,7 @@ def _check1(case):
         except Exception:      # noqa
             pass
         fatal_epytext = any(getattr(e_, 'is_fatal', lambda: False)() for e_ in errs_)
+        fatal_descrs = [str(e_.descr()).split('\n')[0][:25] for e_ in errs_ if getattr(e_, 'is_fatal', lambda: False)()]
     for n in list(system.allobjects):
         o = system.allobjects.get(n)
         if n in SENTINELS or o is None or o.docstring is None:
@@ -282,6 +293,17 @@ def _check1(case):
         if fatal_epytext and not gave_up and n not in ('m.Derived.inh',) and o.docstring == cleaned:
             fails.append({'observed': f'{n}: the docstring has a fatal epytext error but is rendered as markup ({type(pd).__name__}): {html.unescape(got[n][0])!r:.160}',
                           'required': 'any fatal epytext markup error: the complete original text is shown as plain text', 'class': 'fatal-not-plain'})
+        if gave_up and log is not None and o.docstring_lineno:
+            # ... by a message that points into that docstring (not only by a message about something else on the same object)
+            span = range(o.docstring_lineno, o.docstring_lineno + o.docstring.count('\n') + 2)
+            msgs_ = [(int(m_.group(1)), m_.group(2)) for m_ in re.finditer(r'(?m)^m:(\d+): bad docstring: (.*)$', log.getvalue())]
+            lines_ = [l_ for l_, _t in msgs_]
+            if fatal_epytext and o.docstring == cleaned and not any(l_ in span and any(t_.startswith(d_) for d_ in fatal_descrs) for l_, t_ in msgs_):
+                fails.append({'observed': f'{n}: the fatal epytext error ({fatal_descrs[0]!r}) is not among the messages that point into its docstring (lines {span.start}-{span.stop - 1}): '
+                                          f'{[(l_, t_[:40]) for l_, t_ in msgs_ if l_ in span]}', 'required': 'the problem is reported against that object', 'class': 'fatal-unreported'})
+            if not any(l_ in span for l_ in lines_):
+                fails.append({'observed': f'{n}: the {effective} parser gave up, but no "bad docstring" message points into its docstring (lines {span.start}-{span.stop - 1}; messages at {sorted(set(lines_))[:8]})',
+                              'required': 'the problem is reported against that object', 'class': 'unreported-in-docstring'})
         if gave_up:
             if o.fullName() not in system.parse_errors['docstring']:
                 fails.append({'observed': f'{n}: the {effective} parser gave up (plain-text fallback) without a report against the object',
